@@ -481,6 +481,41 @@ def crafted_same_endpoints():
     return out
 
 
+def crafted_forall_accumulation():
+    """a quantified increase / decrease whose instances all reach the SAME ground fluent (the target does not mention the quantified variable):
+    the instances are applied together, so the amounts add up -- as an instantaneous action and at the end of a durative one, with a goal on the sum
+    (valid) and goals on the value a single instance would give (invalid)"""
+    from unified_planning.shortcuts import (Problem, Fluent, IntType, UserType, Object, Variable, DurativeAction, InstantaneousAction, EndTiming, StartTiming, Equals)
+    out = []
+    for decrease in (False, True):
+        for goalv in ((3, 2, 1) if not decrease else (7, 8, 9)):
+            for shape in ("instantaneous", "durative-end", "durative-start"):
+                T_ = UserType("T5a")
+                pr = Problem(f"forall_accumulation_{'dec' if decrease else 'inc'}_{goalv}_{shape}")
+                o1, o2 = Object("o1", T_), Object("o2", T_)
+                pr.add_objects([o1, o2])
+                total, w = Fluent("total", IntType(0, 20)), Fluent("w", IntType(0, 5), x=T_)
+                pr.add_fluent(total, default_initial_value=10 if decrease else 0)
+                pr.add_fluent(w, default_initial_value=0)
+                pr.set_initial_value(w(o1), 1)
+                pr.set_initial_value(w(o2), 2)
+                v = Variable("v", T_)
+                if shape == "instantaneous":
+                    a = InstantaneousAction("sumup")
+                    (a.add_decrease_effect if decrease else a.add_increase_effect)(total, w(v), forall=[v])
+                    dur = None
+                else:
+                    a = DurativeAction("sumup")
+                    a.set_fixed_duration(2)
+                    t = EndTiming() if shape == "durative-end" else StartTiming()
+                    (a.add_decrease_effect if decrease else a.add_increase_effect)(t, total, w(v), forall=[v])
+                    dur = Fraction(2)
+                pr.add_action(a)
+                pr.add_goal(Equals(total, goalv))
+                out.append((pr, [(Fraction(1), a, (), dur)]))
+    return out
+
+
 def bounded(tier, seed):
     import warnings
     from rtc.tgen import TGen
@@ -496,6 +531,8 @@ def bounded(tier, seed):
         def stream():
             for k_, (pr_, plan_) in enumerate(crafted_same_endpoints()):
                 yield f"crafted{k_}", pr_, [plan_]
+            for k_, (pr_, plan_) in enumerate(crafted_forall_accumulation()):
+                yield f"crafted-forall-accumulation{k_} [forall-increase-instances-on-one-ground-fluent]", pr_, [plan_]
             for i in range(nprob):
                 s_ = seed * 100003 + i
                 g = TGen(s_)
